@@ -929,11 +929,29 @@ class Exec:
         """explore all feasible paths of `fn` from `args`; returns list[Result]"""
         self.results = []
         p = p or Path()
+        args = self.adapt_args(fn, args, p)
 
         def done(q, ret):
             self.results.append(Result(q, ret, 'return'))
         self.run_fn(fn, args, p, 0, done, tagname)
         return self.results
+
+    def adapt_args(self, fn, args, p):
+        """fit the entry arguments to the parameter passing mode `fn` declares today: a value for a `&T` parameter is put behind a
+        fresh cell, a pointer to a cell for a by-value parameter is read (`pid: PeerId` <-> `pid: &PeerId` and the like)"""
+        out = []
+        for a, v in zip(fn.args, args):
+            t = (fn.decl.get(a, '') or '').strip()
+            is_ref = t.startswith('&') or t.startswith('*')
+            if is_ref and v is not None and not isinstance(v, Ptr) and not (isinstance(v, Sym) and v.ty.strip().startswith('&')):
+                cell = ('H', f'arg{a}', t.lstrip('&').replace('mut ', '').strip())
+                p.mem[cell] = v
+                out.append(Ptr(cell, (), t.startswith('&mut')))
+            elif t and not is_ref and isinstance(v, Ptr) and v.key in p.mem and not v.projs and not re.match(r'(Box|Arc|Rc|Pin|std::\w+::(Box|Arc|Rc|Pin))<|impl |dyn ', t):
+                out.append(p.mem[v.key])
+            else:
+                out.append(v)
+        return out + list(args[len(out):])
 
     def end_path(self, p, tag, info=None):
         p.tags.append((tag, info))
